@@ -206,10 +206,11 @@ def _shard_default_resolver(item, out):
     engine = explore.engine_for("K-noresolvers", schema, resolvers=set())
     docs = ["{ num color a { id name a echo } }", "{ b { id tags strict } c { id c name } ints matrix }",
             "{ a { peer { id name } } hello }"]
-    for style in ("dict", "attr"):
+    for style in ("dict", "attr", "proxy", "userdict", "getitem"):
         for variant in (0, 1, 2, 3):
             root = build_root(schema, "Query", variant, style=style)
-            for t in docs:
+            # (the mapping styles: documents without abstract types -- how a runtime type is named is not what is varied here)
+            for t in (docs if style in ("dict", "attr") else docs[:2]):
                 d = doc.parse(t)
                 text, located = doc.roundtrip(d)
                 scn = Scenario(root=root, resolvers=set())
